@@ -276,4 +276,37 @@ def directRun {α : Type} (draws : Nat → α) : Nat → Chain α → Chain α
 /-- `Sampler.initialize` : `current_point = initial_point; _samples = []; _acc = [1]` -/
 def chainInit {α : Type} (pos : Nat) (x0 : α) : Chain α := ⟨pos, x0, [], [1]⟩
 
+/-! ### one `Direct` sampler, several targets: histories of assignments, steps and re-initialisations
+
+Target `t` serves its draws in order (`pos t` = how many it has served).  Every assignment of a target
+(constructor or `sampler.target = …`, also of the same object again) runs `validate_target`, which spends
+one draw of *that* target; `step` takes the next draw of the *currently assigned* target
+(`self.target.sample()` is looked up at every step); `reinitialize()` clears the history and draws nothing. -/
+
+inductive DOp
+  | assign (t : Nat)
+  | step
+  | reinit
+  deriving Repr, DecidableEq
+
+structure MChain where
+  cur : Nat
+  pos : Nat → Nat
+  /-- stored states as (target, index of the draw of that target) -/
+  samples : List (Nat × Nat)
+  acc : List Nat
+
+def bump (pos : Nat → Nat) (t : Nat) : Nat → Nat := fun u => if u = t then pos u + 1 else pos u
+
+def mStep (st : MChain) : DOp → MChain
+  | .assign t => { st with cur := t, pos := bump st.pos t }
+  | .step => { st with pos := bump st.pos st.cur, samples := st.samples ++ [(st.cur, st.pos st.cur)],
+                       acc := st.acc ++ [1] }
+  | .reinit => { st with samples := [], acc := [1] }
+
+def mRun (st : MChain) (ops : List DOp) : MChain := ops.foldl mStep st
+
+/-- `Direct(t)`: assignment in the constructor, then `initialize` -/
+def mInit (t : Nat) : MChain := ⟨t, bump (fun _ => 0) t, [], [1]⟩
+
 end CuqiVerif.C10
